@@ -278,15 +278,32 @@ fn trial_b(ctx: &Ctx, cs: u64) {
     let mut rng = Rng::new(cs);
     let n = *rng.pick(&[5usize, 8, 16, 64]);
     let t0 = library_thread_count();
-    let ip = own_ip(ctx.shard, cs);
-    let server = match Server::http(format!("{}:0", ip)) {
-        Ok(s) => Arc::new(s),
-        Err(e) => {
-            rep.inconclusive(&format!("bind: {}", e));
-            return;
+    let unix = rng.chance(1, 3);
+    let (server, addr) = if unix {
+        let dir = std::env::current_exe().unwrap().parent().unwrap().join("socks");
+        let _ = std::fs::create_dir_all(&dir);
+        let p = dir.join(format!("c20b-{}-{:x}", std::process::id(), cs & 0xffff_ffff));
+        let _ = std::fs::remove_file(&p);
+        match Server::http_unix(&p) {
+            Ok(s) => (Arc::new(s), Addr::Unix(p)),
+            Err(e) => {
+                rep.inconclusive(&format!("bind unix: {}", e));
+                return;
+            }
+        }
+    } else {
+        let ip = own_ip(ctx.shard, cs);
+        match Server::http(format!("{}:0", ip)) {
+            Ok(s) => {
+                let a = Addr::Tcp(s.server_addr().to_ip().unwrap());
+                (Arc::new(s), a)
+            }
+            Err(e) => {
+                rep.inconclusive(&format!("bind: {}", e));
+                return;
+            }
         }
     };
-    let addr = Addr::Tcp(server.server_addr().to_ip().unwrap());
     let stop = Arc::new(AtomicBool::new(false));
     let (s2, stop2) = (server.clone(), stop.clone());
     let app = spawn_named("app", move || {
@@ -339,7 +356,10 @@ fn trial_b(ctx: &Ctx, cs: u64) {
     let t3 = library_thread_count();
     rep.inc("b:trials");
     let nontrivial = t_peak > t1;
-    let bsig = format!("b|N{}|N2_{}|peak{}|busydrop{}", n, n2, t_peak, drop_while_busy);
+    let bsig = format!("b|N{}|N2_{}|peak{}|busydrop{}|unix{}", n, n2, t_peak, drop_while_busy, unix);
+    if unix {
+        rep.inc("b:unix");
+    }
     if drop_while_busy {
         rep.inc("b:server_dropped_while_all_workers_busy");
     }
@@ -347,6 +367,7 @@ fn trial_b(ctx: &Ctx, cs: u64) {
     let detail = J::obj()
         .set("burst", J::u(n))
         .set("second_burst", J::u(n2))
+        .set("transport", J::s(if unix { "unix" } else { "tcp" }))
         .set("server_dropped_while_all_workers_busy", J::B(drop_while_busy))
         .set("library_threads_before_server", J::u(t0))
         .set("library_threads_idle_server_T1", J::u(t1))
